@@ -19,6 +19,10 @@ fn main() {
     compare(&args[2], &args[3]);
     return;
   }
+  if args[1] == "c08probe" {
+    props::c08::probe(&args[2], &args[3]);
+    return;
+  }
   let prop = args[1].clone();
   let mut cfg = RunCfg {
     seed: 1,
@@ -69,6 +73,7 @@ fn main() {
     "c04" => props::c04::run(&cfg),
     "c01" => props::c01::run(&cfg),
     "c06" => props::c06::run(&cfg),
+    "c08" => props::c08::run(&cfg),
     _ => {
       eprintln!("unknown property {}", prop);
       std::process::exit(2);
